@@ -128,6 +128,29 @@ impl LengthPrefixedFramer {
   }
 }
 
+impl LengthPrefixedFramer {
+  /// Both ciphers append a 16-byte authentication tag; the record length is a u16.
+  const MAX_RECORD_PLAINTEXT: usize = u16::MAX as usize - 16;
+
+  /// Encrypts one record. A plaintext that cannot fit the 16-bit record length is refused
+  /// *before* it is encrypted, so that no nonce is consumed and nothing is put on the wire
+  /// with a truncated length prefix.
+  fn seal_record(&mut self, plaintext: &[u8]) -> Result<Bytes, ZmqError> {
+    if plaintext.len() > Self::MAX_RECORD_PLAINTEXT {
+      return Err(ZmqError::InvalidMessage(format!(
+        "{} bytes do not fit one encrypted record (max {})",
+        plaintext.len(),
+        Self::MAX_RECORD_PLAINTEXT
+      )));
+    }
+    let ciphertext = self.cipher.encrypt(plaintext)?;
+    let mut out = BytesMut::with_capacity(2 + ciphertext.len());
+    out.put_u16(ciphertext.len() as u16);
+    out.extend_from_slice(&ciphertext);
+    Ok(out.freeze())
+  }
+}
+
 impl ISecureFramer for LengthPrefixedFramer {
   fn try_read_msg(&mut self, network_buffer: &mut BytesMut) -> Result<Option<Msg>, ZmqError> {
     loop {
@@ -154,19 +177,11 @@ impl ISecureFramer for LengthPrefixedFramer {
 
   fn write_msg_multipart(&mut self, msgs: FrameBatch) -> Result<Bytes, ZmqError> {
     let plaintext = self.framer.frame_contiguous(&[msgs])?;
-    let ciphertext = self.cipher.encrypt(&plaintext)?;
-    let mut out = BytesMut::with_capacity(2 + ciphertext.len());
-    out.put_u16(ciphertext.len() as u16);
-    out.extend_from_slice(&ciphertext);
-    Ok(out.freeze())
+    self.seal_record(&plaintext)
   }
 
   fn write_msg_batch(&mut self, batch: &[FrameBatch]) -> Result<Bytes, ZmqError> {
     let plaintext = self.framer.frame_contiguous(batch)?;
-    let ciphertext = self.cipher.encrypt(&plaintext)?;
-    let mut out = BytesMut::with_capacity(2 + ciphertext.len());
-    out.put_u16(ciphertext.len() as u16);
-    out.extend_from_slice(&ciphertext);
-    Ok(out.freeze())
+    self.seal_record(&plaintext)
   }
 }
